@@ -20,13 +20,13 @@ def run(run):
         run.count('functions', len(F.fns))
         run.count('records', len(F.records))
         run.count('units')
-        records.definite_init(run, 'C17.a', F)
-        records.copy_ctor_coverage(run, 'C17.b', F)
-        records.no_mutable_statics(run, 'C17.d', F)
-        records.externals(run, 'C17.d', F)
-        records.address_independence(run, 'C17.e', F)
+        run.guard('definite init', records.definite_init, run, 'C17.a', F)
+        run.guard('copy ctor coverage', records.copy_ctor_coverage, run, 'C17.b', F)
+        run.guard('no mutable statics', records.no_mutable_statics, run, 'C17.d', F)
+        run.guard('externals', records.externals, run, 'C17.d', F)
+        run.guard('address independence', records.address_independence, run, 'C17.e', F)
         if w == 'w_core':
-            copy_does_not_reenter(run, F)
+            run.guard('copy does not reenter', copy_does_not_reenter, run, F)
         facts.drop(F)
     run.floor('C17.a', 40)
     run.floor('C17.b', 6)
